@@ -15,8 +15,9 @@ import (
 )
 
 func init() {
-	// (the files of the package are initialised in name order: c14.go has set its text)
+	// (the files of the package are initialised in name order: c14.go and c17.go have set their texts)
 	core.Explanations["C14"] += " (R14.14) in every function that hands a connection to a routine that walks the databases of a stand-alone target, no database-dependent command is issued on that connection before a database is selected on it again (the start-up recovery reads frontier, journal and latest records in database 0, where the senders write them)."
+	core.Explanations["C17"] += " (R17.13) a mode migration reads the root checkpoint of the old namespace before that namespace is deleted and raises the seed of the new one to it when the root is ahead (the position carried over is the one the start-up reader would have answered)."
 }
 
 // ---------------------------------------------------------------- R14.14 no keyed command in a database nobody chose
@@ -525,5 +526,152 @@ func ruleDatabaseAfterWalk(w *core.World, r *core.Report) {
 		default:
 			r.Check(v.walks > 0, name, v.pos, "no path hands the connection to the routine that walks the databases")
 		}
+	}
+}
+
+// ---------------------------------------------------------------- R17.13 a mode migration carries over the greater of mode state and root checkpoint
+
+// ruleMigrationJoinsRoot: the resume reader (bisyncStartPoint) answers the root
+// checkpoint of the namespace when it is ahead of the mode state (latest
+// records / frontier + journal) — a completed full sync writes only the root.
+// Switching the recovery format seeds a new namespace, repoints the index and
+// deletes the old namespace, its root key included. The position carried over
+// must therefore be the greater of the two: a migration that looks at the mode
+// state alone writes the older position and destroys the only record of the
+// newer one (W35). Decided on the paths of the migrating function:
+//
+//	(a) every path that seeds the new namespace from a seed has read the root
+//	    checkpoint of the *old* name (checkpoint.GetCheckpoint on the name the
+//	    index gave) and has seen that read succeed;
+//	(b) on some path the offset read there reaches the seed handed on (stored
+//	    into the seed's offset, or the seed is built from it);
+//	(c) wherever it does, the path has established root offset > seed offset:
+//	    the join is a maximum, it never lowers the seed.
+func ruleMigrationJoinsRoot(w *core.World, r *core.Report) {
+	f := fn(w, r, "(*syncer.syncer).resolveBisyncCheckpointNameWithClient")
+	if f == nil {
+		return
+	}
+	const construct = "resolveBisyncCheckpointNameWithClient/seed-joins-root"
+	isOldName := isResultOf("pkg/redis/checkpoint.GetCheckpointHash", 0)
+	bad := ""
+	var pos token.Pos = f.Pos()
+	seeded, raised := 0, 0
+	okEnum := core.EnumPaths(f.Blocks[0], 0, 200000, func(p *core.Path) {
+		if bad != "" {
+			return
+		}
+		sites := pathSites(p)
+		for si, s := range sites {
+			if !strings.HasSuffix(s.Name, "syncer).seedBisyncNamespace") {
+				continue
+			}
+			var seedArg ssa.Value
+			for _, a := range s.Args() {
+				if strings.HasSuffix(core.TypeName(a.Type()), "BisyncNamespaceSeed") {
+					seedArg = a
+				}
+			}
+			if seedArg == nil {
+				bad, pos = "the seed handed to seedBisyncNamespace was not found", s.Pos()
+				return
+			}
+			if pathNil(p, seedArg) {
+				continue // nothing is carried over on this path
+			}
+			seeded++
+			seedVal := core.Unwrap(p.Resolve(seedArg))
+			// (a) the read of the old root
+			var read core.Site
+			for _, g := range sites[:si] {
+				if g.Name != "pkg/redis/checkpoint.GetCheckpoint" {
+					continue
+				}
+				if a := g.Args(); len(a) == 3 && isOldName(p.Resolve(a[1])) {
+					read = g
+				}
+			}
+			if read.Instr == nil {
+				bad, pos = "the new namespace is seeded from the mode state of the old one (latest records, or frontier and journal) on a path that never reads the old namespace's root checkpoint (checkpoint.GetCheckpoint on the name the index gave): the start-up reader prefers the root when it is ahead (a full sync writes only the root), so the migration writes the older position and then deletes the old root key, the only record of the newer one — the next start resumes behind the position held before the switch", s.Pos()
+				return
+			}
+			var readErr ssa.Value
+			if rv := read.Value(); rv != nil {
+				for _, ref := range *rv.Referrers() {
+					if e, ok := ref.(*ssa.Extract); ok && e.Index == 2 {
+						readErr = e
+					}
+				}
+			}
+			if readErr == nil || !pathNil(p, readErr) {
+				bad, pos = "the read of the old root checkpoint may have failed on a path that goes on to seed the new namespace and delete the old one: the position it would have reported is lost", read.Pos()
+				return
+			}
+			isRoot := func(v ssa.Value) bool {
+				e, ok := core.Unwrap(p.Resolve(v)).(*ssa.Extract)
+				return ok && e.Index == 0 && e.Tuple == read.Value()
+			}
+			offsetOf := func(v ssa.Value, base func(ssa.Value) bool) bool {
+				ld, ok := core.Unwrap(p.Resolve(v)).(*ssa.UnOp)
+				if !ok || ld.Op != token.MUL {
+					return false
+				}
+				fa, ok := ld.X.(*ssa.FieldAddr)
+				return ok && core.FieldName(fa) == "Offset" && base(fa.X)
+			}
+			isSeed := func(v ssa.Value) bool { return core.Unwrap(p.Resolve(v)) == seedVal }
+			isRootOffset := func(v ssa.Value) bool { return offsetOf(v, isRoot) }
+			isSeedOffset := func(v ssa.Value) bool { return offsetOf(v, isSeed) }
+			// (b) the root's offset reaches the seed
+			var raise ssa.Instruction
+			for _, in := range p.Instrs {
+				if in == s.Instr {
+					break
+				}
+				st, ok := in.(*ssa.Store)
+				if !ok {
+					continue
+				}
+				fa, ok := st.Addr.(*ssa.FieldAddr)
+				if ok && core.FieldName(fa) == "Offset" && isSeed(fa.X) && isRootOffset(st.Val) {
+					raise = in
+				}
+			}
+			if raise == nil && core.DependsOnDeep(seedVal, func(v ssa.Value) bool { return isRoot(v) }) {
+				raise = s.Instr // the seed was built from the root
+			}
+			if raise == nil {
+				continue
+			}
+			raised++
+			// (c) only upwards
+			greater := false
+			for _, fct := range factsBefore(p, raise) {
+				c, ok := core.FactCmp(fct)
+				if !ok {
+					continue
+				}
+				switch {
+				case (c.Op == token.GTR || c.Op == token.GEQ) && isRootOffset(c.X) && isSeedOffset(c.Y):
+					greater = true
+				case (c.Op == token.LSS || c.Op == token.LEQ) && isSeedOffset(c.X) && isRootOffset(c.Y):
+					greater = true
+				}
+			}
+			if !greater {
+				bad, pos = "the seed's offset is replaced by the root checkpoint's on a path that has not established that the root is ahead (root offset > seed offset): in the ordinary state the root holds the end of the last full sync and the mode state is ahead of it, the migration would move the resume position backwards", raise.Pos()
+				return
+			}
+		}
+	})
+	switch {
+	case !okEnum:
+		r.Undecided(construct, f.Pos(), "too many paths")
+	case bad != "":
+		r.Fail(construct, pos, "%s", bad)
+	case seeded == 0:
+		r.Fail(construct, f.Pos(), "no path seeds a new namespace from the recovery state of the old one")
+	default:
+		r.Check(raised > 0, construct, f.Pos(), "the root checkpoint of the old namespace is read, but on no path does its offset reach the seed of the new namespace (a store into the seed's offset under 'root offset > seed offset', or a seed built from it): the newer position is still lost when the old root key is deleted")
 	}
 }
